@@ -68,6 +68,9 @@ c10_Configs == { D(3, 0, <<W0("w1", 1, 1, 1)>>), D(3, 0, <<Wh("w1", 1, <<H("befo
                  D(3, 0, <<[W0("w1", 1, 1, 0) EXCEPT !.sing = TRUE]>>) }
 c10_Requests == { Rq("start", "w1", TRUE), Rq("stop", "w1", FALSE), Rq("restart", "w1", TRUE), Rq("reload", "w1", FALSE),
                   Rq("incr", "w1", TRUE), Rq("decr", "w1", FALSE), [Rq("set", "w1", TRUE) EXCEPT !.nb = 2],
+                  \* several options in one set; an option that asks for a reload afterwards
+                  [Rq("set", "w1", TRUE) EXCEPT !.nopts = 2, !.opts = <<[k |-> "G", v |-> 0], [k |-> "np", v |-> 2]>>],
+                  [Rq("set", "w1", FALSE) EXCEPT !.opts = <<[k |-> "act1", v |-> 0]>>],
                   Rq("quit", "", FALSE), Rq("stop", "", FALSE), Rq("reload", "", FALSE) }
 
 \* ---- C09: events vs the live set; exit statuses and signals
@@ -81,13 +84,23 @@ c18_Configs == { D(4, 0, <<W0("w1", 2, 1, 0), Wsch2("w2", 1, 1)>>) }
 c18_Requests == { [Rq("signal", "w1", FALSE) EXCEPT !.signum = 1], [Rq("signal", "w1", FALSE) EXCEPT !.signum = 15, !.pid = 1],
                   [Rq("signal", "w1", FALSE) EXCEPT !.signum = 15, !.pid = 3], [Rq("kill", "w1", FALSE) EXCEPT !.pid = 2],
                   [Rq("kill", "w1", FALSE) EXCEPT !.pid = 3], Rq("kill", "w2", FALSE),
-                  [Rq("signal", "w2", FALSE) EXCEPT !.signum = 9, !.pid = 1] }
+                  [Rq("signal", "w2", FALSE) EXCEPT !.signum = 9, !.pid = 1],
+                  \* the children of the workers (one fork: pid 4), all descendants, one child pid, a child that is not one
+                  [Rq("signal", "w1", FALSE) EXCEPT !.signum = 15, !.children = TRUE],
+                  [Rq("signal", "w1", FALSE) EXCEPT !.signum = 15, !.recursive = TRUE, !.pid = 1],
+                  [Rq("signal", "w1", FALSE) EXCEPT !.signum = 1, !.pid = 1, !.childpid = 4],
+                  [Rq("signal", "w2", FALSE) EXCEPT !.signum = 1, !.pid = 3, !.childpid = 1],
+                  [Rq("signal", "w1", FALSE) EXCEPT !.signum = 1, !.childpid = 4] }
 
 \* ---- C19: priority order and pacing at start
 Wp(nm, np, Wd, prio, auto) == [W0(nm, np, 0, Wd) EXCEPT !.prio = prio, !.auto = auto]
 c19_Configs == { D(8, wg, <<Wp("w1", 1, 0, p1, TRUE), Wp("w2", 2, w2, p2, TRUE), Wp("w3", 1, 0, 0, a3)>>) :
                    wg \in {0, 1}, p1 \in {0, 1}, p2 \in {0, 1}, w2 \in {0, 2}, a3 \in BOOLEAN }
-c19_Requests == { Rq("restart", "w2", FALSE), Rq("stop", "", TRUE), Rq("start", "", TRUE) }
+RqP(cmd, pat, ms, waiting) == [Rq(cmd, pat, waiting) EXCEPT !.pattern = TRUE, !.matches = ms]
+c19_Requests == { Rq("restart", "w2", FALSE), Rq("stop", "", TRUE), Rq("start", "", TRUE),
+                  \* name patterns: several watchers through the arbiter-level operation, one through the watcher's
+                  RqP("restart", "w*", <<"w1", "w2", "w3">>, TRUE), RqP("stop", "w[12]", <<"w1", "w2">>, FALSE),
+                  RqP("start", "w[12]", <<"w1", "w2">>, TRUE), RqP("restart", "w2*", <<"w2">>, FALSE) }
 
 \* ---- C08: shutdown at every moment
 c08_Configs == { Mixed(D(3, 0, <<W0("w1", 1, 1, 1), W0("w2", 1, 0, 0)>>)) }
